@@ -9,7 +9,7 @@ import (
 
 // The lexical knobs of idl.Style, by name, so that a failing rendering can be
 // bisected one knob at a time against idl.DefaultStyle().
-var knobNames = []string{"FieldSep", "EnumSep", "FuncSep", "OpSep", "StmtEnd", "Indent", "Quote", "Gap", "Inline", "Blank", "BraceNL", "AngleWS", "TrailingNL", "CRLF", "Tabs", "ZeroPad"}
+var knobNames = []string{"FieldSep", "EnumSep", "FuncSep", "OpSep", "StmtEnd", "Indent", "Quote", "Gap", "Inline", "Blank", "BraceNL", "AngleWS", "TrailingNL", "CRLF", "Tabs", "ZeroPad", "BareCR"}
 
 func sepName(s string) string {
 	switch s {
@@ -71,6 +71,8 @@ func knobValue(s idl.Style, name string) string {
 		return onOff(s.Tabs)
 	case "ZeroPad":
 		return fmt.Sprint(s.ZeroPad)
+	case "BareCR":
+		return []string{"none", "crcrlf-line-ends", "before-indentation", "between-tokens"}[s.BareCR%4]
 	}
 	return "?"
 }
@@ -110,6 +112,8 @@ func copyKnob(dst *idl.Style, src idl.Style, name string) {
 		dst.Tabs = src.Tabs
 	case "ZeroPad":
 		dst.ZeroPad = src.ZeroPad
+	case "BareCR":
+		dst.BareCR = src.BareCR
 	}
 }
 
@@ -164,6 +168,10 @@ func singleKnobStyles() []idl.Style {
 	add(func(s *idl.Style) { s.Tabs = true })
 	add(func(s *idl.Style) { s.ZeroPad = 1 })
 	add(func(s *idl.Style) { s.ZeroPad = 2 })
+	for m := 1; m <= 3; m++ {
+		m := m
+		add(func(s *idl.Style) { s.BareCR = m })
+	}
 	return out
 }
 
@@ -190,6 +198,9 @@ func randomStyle(rng *rand.Rand) idl.Style {
 	s := idl.RandomStyle(rng)
 	if rng.Intn(3) == 0 {
 		s.ZeroPad = 1 + rng.Intn(2)
+	}
+	if rng.Intn(4) == 0 {
+		s.BareCR = 1 + rng.Intn(3)
 	}
 	return s
 }
